@@ -3233,6 +3233,8 @@ class BSP:
         prop_lump = BytesIO()
         prop_lump.write(struct.pack('<i', len(model_list)))
         for name in model_list:
+            if len(name) >= 128:
+                raise OverflowError(f'Static prop model "{name}" exceeds 128 character limit')
             prop_lump.write(struct.pack('<128s', name.encode('ascii', 'surrogateescape')))
 
         prop_lump.write(struct.pack('<i', len(leaf_array)))
@@ -3482,6 +3484,8 @@ class BSP:
         # Now build the complete lump.
         yield struct.pack('<i', len(models))
         for name in models:
+            if len(name) >= 128:
+                raise OverflowError(f'Detail prop model "{name}" exceeds 128 character limit')
             yield struct.pack('<128s', name.encode('ascii', 'surrogateescape'))
         yield struct.pack('<i', len(sprites))
         spr_format = struct.Struct('<8f')
